@@ -285,6 +285,41 @@ Definition aggregate_dendrogram (D : dendrogram) (n_clusters : nat) (return_coun
 Definition true_count (n : nat) (D : dendrogram) (l : nat) : nat :=
   if Nat.ltb l n then 1 else r_size (nth (l - n) D drow0).
 
+(** * Specification vocabulary for the cuts *)
+From Coq Require Import Permutation.
+
+(** Contract of [np.argsort]: the answer is a permutation of the positions that sorts the input. *)
+Definition argsort_ok (argsort : list Z -> list nat) : Prop :=
+  forall l, Permutation (argsort l) (seq 0 (length l)) /\
+            forall a b, a <= b -> b < length l ->
+                        (nth (nth a (argsort l) 0%nat) l 0 <= nth (nth b (argsort l) 0%nat) l 0)%Z.
+
+(** Size of cluster l = number of leaves labelled l. *)
+Definition cluster_size (labels : list nat) (l : nat) : nat := count_occ Nat.eq_dec labels l.
+
+(** [labels] over the leaves 0..n-1 uses exactly the labels 0..k-1, and cluster l is exactly the leaf set
+    of the subtree rooted at id [nth l ids 0] (so the clusters partition the leaves into subtrees). *)
+Definition subtree_partition (n : nat) (D : dendrogram) (labels ids : list nat) : Prop :=
+  length labels = n /\
+  (forall v, v < n -> nth v labels 0 < length ids) /\
+  (forall l v, l < length ids -> v < n -> (nth v labels 0 = l <-> In v (leaves n D (nth l ids 0)))) /\
+  (forall l, l < length ids -> exists v, v < n /\ nth v labels 0 = l).
+
+(** Labels in non-increasing order of cluster size. *)
+Definition sizes_sorted (labels : list nat) (k : nat) : Prop :=
+  forall a b, a <= b -> b < k -> cluster_size labels b <= cluster_size labels a.
+
+(** Number of clusters of a labelling. *)
+Definition num_clusters (labels : list nat) : nat := length (nodup Nat.eq_dec labels).
+
+(** Number of merges strictly below a height. *)
+Definition below (cut : Q) (D : dendrogram) : nat := length (filter (fun r => qltb (r_height r) cut) D).
+
+(** No two merges at the same height. *)
+Definition distinct_heights (D : dendrogram) : Prop :=
+  forall t1 t2 r1 r2, nth_error D t1 = Some r1 -> nth_error D t2 = Some r2 -> t1 <> t2 ->
+                      ~ (r_height r1 == r_height r2)%Q.
+
 (** * Metrics *)
 
 (** A weighted graph on n nodes as COO triples (u, v, weight), no repeated (u, v). *)
